@@ -50,7 +50,6 @@ theorem empty_diff_only_if_equal (a b : List Line) (h : unifiedDiff a b = []) : 
 /-- `Diff(have, want) == ""` only if `have == want` -/
 theorem Diff_empty_only_if_equal (s t : List Char) (h : diff s t = []) : s = t := diff_nil_eq s t h
 
-/-- leading context: after `trimFirst n` a leading `equal` opcode spans at most `n` lines (in both texts) -/
 /-- **equal texts give an empty diff**: matched against itself a text is one block (`flm_self`: the DP
 walks the diagonal and the longest block is the whole window), hence one `equal` opcode, no group -/
 theorem equal_texts_empty_diff (a : List Line) (hne : a ≠ []) : unifiedDiff a a = [] := unifiedDiff_self a hne
@@ -59,6 +58,7 @@ theorem equal_texts_empty_diff (a : List Line) (hne : a ≠ []) : unifiedDiff a 
 theorem Diff_empty_iff_equal (s t : List Char) : diff s t = [] ↔ s = t :=
   ⟨diff_nil_eq s t, fun h => h ▸ diff_self s⟩
 
+/-- leading context: after `trimFirst n` a leading `equal` opcode spans at most `n` lines (in both texts) -/
 theorem leading_context_le (n : Nat) (c : OpCode) (rest : List OpCode) (h : c.tag = 'e') :
     ∃ c', trimFirst n (c :: rest) = c' :: rest ∧ c'.i2 - c'.i1 ≤ n ∧ c'.j2 - c'.j1 ≤ n ∧ c'.i2 = c.i2 ∧ c'.j2 = c.j2 := by
   refine ⟨OpCode.mk c.tag (max c.i1 (c.i2 - n)) c.i2 (max c.j1 (c.j2 - n)) c.j2, by simp [trimFirst, h], ?_, ?_, rfl, rfl⟩
